@@ -36,7 +36,9 @@ prop("C03", "proof",
 prop("C04", "proof",
      "Proved: every proof with an identity among Abar, Bbar, D is rejected both by the decoder and by the verifier itself (the F1 universal-forgery family, repaired by "
      "commit fc846b8), only 272 + 32 k octets decode, and an accepted proof pins its challenge to the hash of the recomputed (T1, T2, domain, disclosed data, ph) and satisfies "
-     "the pairing equation with non-identity points. PARTIAL: the 'any single edit of the statement / any bit flip is rejected' clauses rest on collision resistance and are "
+     "the pairing equation with non-identity points; proof_statement_binding: one proof accepted for two statements constructs an explicit collision of the challenge hash unless "
+     "disclosed positions, disclosed scalars, presentation header and domain agree (challenge_octets_inj: the encoding is injective). PARTIAL: bit flips of the proof and the "
+     "special-soundness extractor are "
      "decided by correspondence (the model's decision on every mutated instance equals zkryptium's) + sweep: all single-bit flips of proofs, whole-scalar truncation / extension, "
      "statement edits, and forgeries built without a signature (identity / Bv / P1 / Q1 families, torsion pairs outside the subgroup that cancel).", "DESIGN.md §10 C04")
 prop("C05", "proof",
